@@ -274,7 +274,7 @@ func TestC15Rollover(t *testing.T) {
 
 		n := c.Int("ops", 4, 120)
 		for i := 0; i < n; i++ {
-			switch c.Weighted("op", 0, 30, 12, 40, 8, 4) {
+			switch c.Weighted("op", 0, 30, 12, 40, 8, 4, 8) {
 			case 1:
 				seal(c.Pick("seal.dir", 2), false)
 			case 2:
@@ -300,6 +300,25 @@ func TestC15Rollover(t *testing.T) {
 				d.pending = append(d.pending[:idx], d.pending[idx+1:]...)
 				deliver(x, false)
 				d.done = append(d.done, x)
+			case 6: // a damaged copy of a frame that is still under way (also of the first frames after the wrap)
+				di := c.Pick("forge.dir", 2)
+				d := dirs[di]
+				if len(d.pending) == 0 {
+					continue
+				}
+				x := d.pending[c.Pick("forge.idx", len(d.pending))]
+				cp := append([]byte(nil), x.data...)
+				cp[len(cp)-1-c.Int("forge.back", 0, 15)] ^= 1 << c.Uniform("forge.bit", 0, 7)
+				var err error
+				if linkMode {
+					err = peering.LinkFrame(cp).Unseal(d.recvE)
+				} else {
+					err = c03UnsealCopy(b, cp, d.recv)
+				}
+				ops = append(ops, fmt.Sprintf("damaged copy of dir%d #%d epoch%d -> err=%v", di, x.seq, x.epoch, err))
+				if err == nil {
+					c.Fatalf("dir%d: a damaged copy of frame #%d unsealed", di, x.seq)
+				}
 			case 5: // a run of regular frames sealed and delivered in order (long-lived traffic)
 				di := c.Pick("burst.dir", 2)
 				d := dirs[di]
